@@ -28,9 +28,13 @@
      [22; gslot; slot]                 -> [22; gslot; slot; check_complete]   (and clears the FIRST certificate)
      [23; X; rank]                     productivity certificate entry for nonterminal X
      [24; gslot; slot]                 -> [24; gslot; slot; check_early; check_productive]  (and clears the ranks)
+     [30; gslot; eoi; sp; ffuel; cfuel; ifuel]
+                                       run the MODEL GENERATOR LR/Gen.generate on the grammar (ffuel 0 = Gen.first_fuel, cfuel 0 = Gen.closure_fuel)
+                                       -> [30; gslot; 1; enc_gen result]  or  [30; gslot; 2; stage] when out of fuel
+     [31; gslot; ffuel]                -> [31; gslot; 1; first_stable; enc_first (Gen.first_table)]  or  [31; gslot; 2]
    Anything else (or a reference to an undefined slot/production)  -> [0; tag]. *)
 From Coq Require Import Arith NArith PArith List Bool FMapPositive.
-Require Import EmbossV.LR.Driver EmbossV.LR.Sound EmbossV.LR.Bisim EmbossV.LR.Complete EmbossV.LR.Early.
+Require Import EmbossV.LR.Driver EmbossV.LR.Sound EmbossV.LR.Bisim EmbossV.LR.Complete EmbossV.LR.Early EmbossV.LR.Gen.
 Import ListNotations.
 Open Scope N_scope.
 
@@ -168,6 +172,46 @@ Definition enc_result (r : result) : list N :=
   | OutOfFuel => [4]
   end.
 
+(* ---- encoding of the model generator's results (LR/Gen.v) as one line of numbers ----
+   enc_gen:  FIRST      n (X o)*                      o = 0 epsilon | t+1
+             states     n (k (pcode dot la)^k)^n      pcode 0 = S' -> start | index+1
+             gotos      n (k (X j)^k)^n               goto table of _items, all symbols, one row per state
+             fill       n (k t^k clash)^n             per state: terminals with a Conflict, assert flag
+             action     n (state k entry^k)^n         rows of t_action; entry = t 0 j | t 1 lhs m rhs^m | t 2 0 | t 3 c
+             goto       n (state k (X j)^k)^n         rows of t_goto (trimmed to nonterminals)
+             clean      gen_clean *)
+Definition enc_o (o : option N) : N := match o with None => 0 | Some t => N.succ t end.
+Definition enc_first (tab : list fentry) : list N := nlen tab :: flat_map (fun e => [fst e; enc_o (snd e)]) tab.
+Definition enc_litem (it : litem) : list N := [enc_o (it_p it); N.of_nat (it_d it); it_a it].
+Definition enc_state (st : list litem) : list N := nlen st :: flat_map enc_litem st.
+Definition enc_pairs (l : list (N * N)) : list N := nlen l :: flat_map (fun e => [fst e; snd e]) l.
+Definition enc_act (e : N * act) : list N :=
+  match snd e with
+  | Shift j => [fst e; 0; j]
+  | Reduce l r => fst e :: 1 :: l :: nlen r :: r
+  | Accept => [fst e; 2; 0]
+  | Err c => [fst e; 3; c]
+  end.
+Definition enc_arow (r : list (N * act)) : list N := nlen r :: flat_map enc_act r.
+Definition enc_amap (m : nmap (list (N * act))) : list N :=
+  let el := PositiveMap.elements m in
+  nlen el :: flat_map (fun kr => Pos.pred_N (fst kr) :: enc_arow (snd kr)) el.
+Definition enc_gmap (m : nmap (list (N * N))) : list N :=
+  let el := PositiveMap.elements m in
+  nlen el :: flat_map (fun kr => Pos.pred_N (fst kr) :: enc_pairs (snd kr)) el.
+Definition enc_fill (f : fill_st) : list N := nlen (f_conf f) :: f_conf f ++ [b2n (f_clash f)].
+Definition enc_gen (r : gen_result) : list N :=
+  enc_first (g_first r)
+  ++ (nlen (g_states r) :: flat_map enc_state (g_states r))
+  ++ (nlen (g_gotos r) :: flat_map enc_pairs (g_gotos r))
+  ++ (nlen (g_fill r) :: flat_map enc_fill (g_fill r))
+  ++ enc_amap (t_action (g_tables r))
+  ++ enc_gmap (t_goto (g_tables r))
+  ++ [b2n (gen_clean r)].
+
+Definition fuel_or (G : grammar) (f : N) : nat := if N.eqb f 0 then first_fuel G else N.to_nat f.
+Definition cfuel_or (G : grammar) (f : N) : nat := if N.eqb f 0 then closure_fuel G else N.to_nat f.
+
 Definition step (s : xstate) (line : list N) : xstate :=
   match line with
   | [1; slot; eoi; dflt] =>
@@ -240,6 +284,24 @@ Definition step (s : xstate) (line : list N) : xstate :=
       | Some G, Some (T, _, Its) =>
           with_rank (emit s [24; g; slot; b2n (check_early G T Its); b2n (check_productive G (x_rank s))]) nempty
       | _, _ => emit s [0; 24; g; slot]
+      end
+  | [30; g; eoi; sp; ff; cf; sf] =>
+      match nget (x_grams s) g with
+      | Some G =>
+          match generate G eoi sp (fuel_or G ff) (cfuel_or G cf) (N.to_nat sf) with
+          | GenOk r => emit s (30 :: g :: 1 :: enc_gen r)
+          | GenOutOfFuel stage => emit s [30; g; 2; stage]
+          end
+      | None => emit s [0; 30; g]
+      end
+  | [31; g; ff] =>
+      match nget (x_grams s) g with
+      | Some G =>
+          match first_table G (fuel_or G ff) with
+          | Some tab => emit s (31 :: g :: 1 :: b2n (first_stable G tab) :: enc_first tab)
+          | None => emit s [31; g; 2]
+          end
+      | None => emit s [0; 31; g]
       end
   | tag :: _ => emit s [0; tag]
   | [] => s
